@@ -91,7 +91,8 @@ def _run_structural(ctx):
         if e.kind in FORBIDDEN and e.kind not in ("STATE_MUT",):
             r2.violation(f"{main.module.relpath}::main::{e.kind}", f"the group callback run before every command {FORBIDDEN[e.kind]} ({e.detail} at {e.where})", e.where)
             okw = False
-        if e.kind == "FS_WRITE" and e.finfo.key not in ("gwf.cli:main", "gwf.cli:init", "gwf.conf:FileConfig.dump"):
+        if e.kind == "FS_WRITE" and e.finfo.key not in ("gwf.cli:main", "gwf.cli:init", "gwf.conf:FileConfig.dump") and not res.owned_by(
+                e.finfo, ["gwf.cli:main", "gwf.cli:init", "gwf.conf:FileConfig.dump"]):
             r2.violation(f"{main.module.relpath}::main::write", f"the group callback writes a file at {e.where}", e.where)
             okw = False
     if okw:
